@@ -129,6 +129,9 @@ struct Prog {
     ck(id, a == b, [&] { std::ostringstream q; q << what << ": dense " << a << ", sparse " << b << "; x = " << show(x.v); return q.str(); });
     return a;
   }
+  static LE from_model(const Vec& v, Representation r) { LE e(r); e.set_space_dimension(v.size() - 1); for (size_t j = 1; j < v.size(); ++j) if (v[j] != 0) e.set_coefficient(Variable(j - 1), Coefficient(v[j])); e.set_inhomogeneous_term(Coefficient(v[0])); return e; }
+  // all observable views of e agree with the model vector nv
+  bool faithful(const LE& e, const Vec& nv) { LE ref = from_model(nv, DENSE); return e.space_dimension() == nv.size() - 1 && e.OK() && vec_of(e) == nv && text_of(e) == text_of(ref) && compare(e, ref) == 0 && compare(ref, e) == 0 && e.is_equal_to(ref) && dump_norep(e) == dump_norep(ref); }
   void grow(Vec& v, size_t n) { if (v.size() < n) v.resize(n, Z(0)); }
   void range_of(size_t size, size_t& a, size_t& b) { a = t.range(0, (long) size); b = t.range(0, (long) size); if (a > b) std::swap(a, b); if (t.chance(25)) { a = 0; b = size; } }
   void same_dim(Slot& x, Slot& y, std::ostringstream& d) {   // make y as long as x (several primitives need equal dimensions)
@@ -184,6 +187,10 @@ struct Prog {
       d << (lax ? "linear_combine_lax(" : "linear_combine(") << Y << ", " << c1 << ", " << c2 << ")" << mx; op = d.str();
       both2(x, y, mixed, [&](LE& e, const LE& f) { if (lax) e.linear_combine_lax(f, Coefficient(c1), Coefficient(c2)); else e.linear_combine(f, Coefficient(c1), Coefficient(c2)); });
       grow(x.v, y.v.size());
+      if (lax && mixed && c1 == 0 && c2 != 0 && !x.s.OK()) {   // separate check id: the sparse target stores the zeroes of the dense operand
+        Vec got = vec_of(x.s);
+        if (muted().count("op.linear_combine_lax.sparse_from_dense")) { LE fix = from_model(got, SPARSE); x.s.m_swap(fix); }
+        else ck("op.linear_combine_lax.sparse_from_dense", false, [&] { return "sparse x.linear_combine_lax(dense y, 0, c2): OK() is false afterwards, x prints as `" + text_of(x.s) + "' (explicit zeroes stored in the sparse row); y = " + show(y.v); }); }
       // "*this = *this * c1 + y * c2": every coefficient of *this is scaled, also beyond y's dimension
       { Vec alt = x.v; bool tail = false; for (size_t i = 0; i < x.v.size(); ++i) { if (i < y.v.size()) alt[i] = x.v[i] * c1 + y.v[i] * c2; else if (x.v[i] != 0 && c1 != 1) tail = true; x.v[i] = x.v[i] * c1 + (i < y.v.size() ? y.v[i] : Z(0)) * c2; }
         if (tail) {   // separate check id: both representations leave the coefficients beyond y's dimension unscaled
@@ -194,6 +201,10 @@ struct Prog {
     case 10: { same_dim(x, y, d); bool lax = t.chance(40); Z c1 = lax ? val() : val(true), c2 = lax ? val() : val(true); if (t.chance(30)) c1 = 1; if (t.chance(20)) c2 = t.chance(50) ? 1 : -1; size_t a, b; range_of(x.v.size(), a, b);
       d << (lax ? "linear_combine_lax(" : "linear_combine(") << Y << ", " << c1 << ", " << c2 << ", " << a << ", " << b << ")" << mx; op = d.str();
       both2(x, y, mixed, [&](LE& e, const LE& f) { if (lax) CALL(e, LCombLax)(f, Coefficient(c1), Coefficient(c2), a, b); else CALL(e, LComb)(f, Coefficient(c1), Coefficient(c2), a, b); });
+      if (lax && mixed && c1 == 0 && c2 != 0 && !x.s.OK()) {
+        Vec got = vec_of(x.s);
+        if (muted().count("op.linear_combine_lax.sparse_from_dense")) { LE fix = from_model(got, SPARSE); x.s.m_swap(fix); }
+        else ck("op.linear_combine_lax.sparse_from_dense", false, [&] { return "sparse x.linear_combine_lax(dense y, 0, c2, start, end): OK() is false afterwards, x prints as `" + text_of(x.s) + "' (explicit zeroes stored in the sparse row); y = " + show(y.v); }); }
       for (size_t i = a; i < b; ++i) x.v[i] = x.v[i] * c1 + y.v[i] * c2;
       break; }
     case 11: { if (x.dim() == 0) { d << "swap_space_dimensions: dimension 0"; op = d.str(); mut = false; break; } size_t a = t.range(0, (long) x.dim() - 1), b = t.range(0, (long) x.dim() - 1); d << "swap_space_dimensions(x" << a << ", x" << b << ")"; op = d.str();
@@ -220,9 +231,9 @@ struct Prog {
         Vec nv = x.v; nv.resize(n + 1, Z(0));
         ck("conv.copy_space_dim", n2.representation() == DENSE && n3.representation() == SPARSE, "LE(e, space_dim) must keep e's representation");
         const LE* all[4] = { &nd, &ns, &n2, &n3 }; const char* nm[4] = { "LE(., n, DENSE)", "LE(., n, SPARSE)", "LE(dense, n)", "LE(sparse, n)" };
-        for (int q = 0; q < 4; ++q) if (!(cross && q < 2 && muted().count("conv.copy_space_dim_cross"))) ck(cross && q < 2 ? "conv.copy_space_dim_cross" : "conv.copy_space_dim", all[q]->space_dimension() == n && all[q]->OK() && vec_of(*all[q]) == nv,
-            [&] { return std::string(nm[q]) + " from " + show(x.v) + " with n = " + std::to_string(n) + (cross && q < 2 ? " (source in the other representation)" : "") + " gives dimension " + std::to_string(all[q]->space_dimension()) + ", OK() = " + (all[q]->OK() ? "true" : "false") + ", value " + show(vec_of(*all[q])) + ", expected " + show(nv); });
-        bool good = true; for (int q = 0; q < 2; ++q) good = good && all[q]->space_dimension() == n && all[q]->OK() && vec_of(*all[q]) == nv;
+        for (int q = 0; q < 4; ++q) if (!(cross && q < 2 && muted().count("conv.copy_space_dim_cross"))) ck(cross && q < 2 ? "conv.copy_space_dim_cross" : "conv.copy_space_dim", faithful(*all[q], nv),
+            [&] { return std::string(nm[q]) + " from " + show(x.v) + " with n = " + std::to_string(n) + (cross && q < 2 ? " (source in the other representation)" : "") + " gives dimension " + std::to_string(all[q]->space_dimension()) + ", OK() = " + (all[q]->OK() ? "true" : "false") + ", value " + show(vec_of(*all[q])) + ", printed `" + text_of(*all[q]) + "', expected " + show(nv); });
+        bool good = true; for (int q = 0; q < 2; ++q) good = good && faithful(*all[q], nv);
         if (good) { x.d.m_swap(nd); x.s.m_swap(ns); } else { both1(x, [&](LE& e) { e.set_space_dimension(n); }); }    // muted finding: continue from sane objects
         x.v = nv; }
       else if (w == 4) { d << "copy constructor / assignment keep the representation"; op = d.str(); LE a(x.d), b(x.s); LE cc(SPARSE), dd(DENSE); cc = x.d; dd = x.s;
@@ -255,7 +266,8 @@ struct Prog {
       Variables_Set vs; bool azv = true, aze = true; for (size_t i = 0; i < x.dim(); ++i) if (t.chance(35)) { vs.insert(Variable(i)); azv = azv && x.v[i + 1] == 0; }
       for (size_t i = a; i < b; ++i) if (x.v[i] != 0 && (i == 0 || !vs.count(i - 1))) aze = false;
       ck("query.all_zeroes_vars", query1<bool>("query.all_zeroes_vars", x, [&](const LE& e) { return e.all_zeroes(vs); }, "all_zeroes(Variables_Set)") == azv, [&] { return "all_zeroes(" + text_of(vs) + ") wrong for " + show(x.v); });
-      ck("query.all_zeroes_except", query1<bool>("query.all_zeroes_except", x, [&](const LE& e) { return CALL(e, LAllZEx)(vs, a, b); }, "all_zeroes_except") == aze, [&] { return "all_zeroes_except(" + text_of(vs) + ", " + std::to_string(a) + ", " + std::to_string(b) + ") wrong for " + show(x.v); });
+      const char* aze_id = (a == 0 && b == 0) ? "query.all_zeroes_except.empty_range" : "query.all_zeroes_except";
+      ck(aze_id, query1<bool>(aze_id, x, [&](const LE& e) { return CALL(e, LAllZEx)(vs, a, b); }, "all_zeroes_except") == aze, [&] { return "all_zeroes_except(" + text_of(vs) + ", " + std::to_string(a) + ", " + std::to_string(b) + ") wrong for " + show(x.v); });
       for (size_t i = 0; i < x.v.size(); ++i) ck("query.get", query1<Z>("query.get", x, [&](const LE& e) { return zv(CALL(e, LGet)(i)); }, "get(i)") == x.v[i], "get(i) differs from the model");
       if (x.dim() > 0) { size_t v = t.range(0, (long) x.dim() - 1); size_t e = v; while (e < x.dim() && x.v[e + 1] == 0) ++e;
         both1(x, [&](LE& ex) { LE::const_iterator it = ex.lower_bound(Variable(v)); ck("query.lower_bound", e == x.dim() ? it == ex.end() : (it != ex.end() && it.variable().id() == e && zv(*it) == x.v[e + 1]), [&] { return "lower_bound(x" + std::to_string(v) + ") wrong for " + show(x.v); }); }); }
@@ -320,7 +332,7 @@ struct Prog {
       CALL(xd, CStrong)(); CALL(xs, CStrong)(); cmp_objs("obj.constraint.strong_normalize", xd, xs, "Constraint after strong_normalize"); ck("obj.constraint.strong_normalize", zv(xd.inhomogeneous_term()) == zv(xs.inhomogeneous_term()) && xd.is_equal_to(xs), "strong_normalize results differ");
       Constraint t1(xd); t1.set_representation(SPARSE); Constraint t2(xs); t2.set_representation(DENSE); cmp_objs("obj.constraint.set_representation", t2, t1, "Constraint after set_representation"); ck("obj.constraint.set_representation", t1.representation() == SPARSE && t2.representation() == DENSE && t1.is_equal_to(xs) && t2.is_equal_to(xd), "set_representation changed the constraint");
       Constraint u1(xs, n2, DENSE), u2(xd, n2, SPARSE), u3(xd, n2), u4(xs, n2); cmp_objs("obj.constraint.copy_space_dim_cross", u1, u2, "Constraint(c in the other representation, space_dim, r)"); cmp_objs("obj.constraint.copy_space_dim", u3, u4, "Constraint(c, space_dim)");
-      Vec ev = vec_of_obj(xd); ev.resize(n2 + 1, Z(0)); ck("obj.constraint.copy_space_dim_cross", vec_of_obj(u1) == ev && vec_of_obj(u2) == ev, [&] { return "Constraint(c, " + std::to_string(n2) + ", r) = " + text_of(u1) + " / " + text_of(u2) + " from " + text_of(xd); });
+      Vec ev = vec_of_obj(xd); ev.resize(n2 + 1, Z(0)); ck(rel == 2 ? "obj.constraint.copy_space_dim_nnc" : "obj.constraint.copy_space_dim_cross", vec_of_obj(u1) == ev && vec_of_obj(u2) == ev && u1.type() == xd.type() && u2.type() == xd.type() && vec_of_obj(u3) == ev && u3.type() == xd.type(), [&] { return "Constraint(c, " + std::to_string(n2) + ", r) = " + text_of(u1) + " / " + text_of(u2) + " from " + text_of(xd); });
     }
     else if (w == 1) { int kind = (int) t.range(0, 3); d << "Generator (" << (kind == 0 ? "line" : kind == 1 ? "ray" : kind == 2 ? "point" : "closure_point") << ") from both slots, both representations"; op = d.str();
       auto hom_zero = [&](const Vec& v) { for (size_t i = 1; i < v.size(); ++i) if (v[i] != 0) return false; return true; };
@@ -338,8 +350,9 @@ struct Prog {
       Generator t1(xd); t1.set_representation(SPARSE); Generator t2(xs); t2.set_representation(DENSE); cmp_objs("obj.generator.set_representation", t2, t1, "Generator after set_representation");
       if (n2 >= x.dim()) { Generator u1(xs, n2, DENSE), u2(xd, n2, SPARSE); cmp_objs("obj.generator.copy_space_dim_cross", u1, u2, "Generator(g in the other representation, space_dim, r)"); }
       // scalar products with a constraint in each representation
+      if (kind != 3) {   // a closure point has an extra (epsilon) coefficient: not dimension-compatible with a C constraint
       Constraint cd(Constraint(y.d >= 0), DENSE), cs(Constraint(y.s >= 0), SPARSE); Coefficient z1, z2, z3, z4; Scalar_Products::assign(z1, cd, xd); Scalar_Products::assign(z2, cd, xs); Scalar_Products::assign(z3, cs, xd); Scalar_Products::assign(z4, xs, cs);
-      ck("obj.scalar_product", z1 == z2 && z1 == z3 && z1 == z4 && Scalar_Products::sign(cd, xs) == sgn(z1) && Scalar_Products::sign(xd, cs) == sgn(z1), [&] { std::ostringstream q; q << "Scalar_Products::assign(constraint, generator) depends on the representation: " << z1 << " " << z2 << " " << z3 << " " << z4; return q.str(); });
+      ck("obj.scalar_product", z1 == z2 && z1 == z3 && z1 == z4 && Scalar_Products::sign(cd, xs) == sgn(z1) && Scalar_Products::sign(xd, cs) == sgn(z1), [&] { std::ostringstream q; q << "Scalar_Products::assign(constraint, generator) depends on the representation: " << z1 << " " << z2 << " " << z3 << " " << z4; return q.str(); }); }
     }
     else if (w == 2) { Z mod = Z(t.range(0, 5)); d << "Congruence e = 0 (mod " << mod << ") from both slots, both representations"; op = d.str();
       auto mk = [&](const LE& e, Representation r) { return Congruence((e %= 0) / Coefficient(mod), r); };
@@ -364,7 +377,7 @@ struct Prog {
       int cdd = compare(xd, yd), cds = compare(xd, ys), csd = compare(xs, yd), css = compare(xs, ys);
       ck("obj.grid_generator.compare", cdd == cds && cdd == csd && cdd == css && compare(xd, xs) == 0, [&] { std::ostringstream q; q << "compare(" << text_of(xd) << ", " << text_of(yd) << "): d/d " << cdd << " d/s " << cds << " s/d " << csd << " s/s " << css; return q.str(); });
       ck("obj.grid_generator.queries", (xd == yd) == (xs == ys) && (xd == ys) == (xs == yd), "operator== depends on the representation");
-      CALL(xd, GGStrong)(); CALL(xs, GGStrong)(); cmp_objs("obj.grid_generator.strong_normalize", xd, xs, "Grid_Generator after strong_normalize"); ck("obj.grid_generator.strong_normalize", xd.is_equal_to(xs), "strong_normalize results differ");
+      if (kind != 1) { CALL(xd, GGStrong)(); CALL(xs, GGStrong)(); } cmp_objs("obj.grid_generator.strong_normalize", xd, xs, "Grid_Generator after strong_normalize"); ck("obj.grid_generator.strong_normalize", xd.is_equal_to(xs), "strong_normalize results differ");
       Grid_Generator t1(xd); t1.set_representation(SPARSE); Grid_Generator t2(xs); t2.set_representation(DENSE); cmp_objs("obj.grid_generator.set_representation", t2, t1, "Grid_Generator after set_representation");
       Congruence cd((y.d %= 0) / 3, DENSE), cs((y.s %= 0) / 3, SPARSE); Coefficient z1, z2, z3, z4; Scalar_Products::assign(z1, xd, cd); Scalar_Products::assign(z2, xd, cs); Scalar_Products::assign(z3, xs, cd); Scalar_Products::assign(z4, cs, xs);
       ck("obj.scalar_product", z1 == z2 && z1 == z3 && z1 == z4, [&] { std::ostringstream q; q << "Scalar_Products::assign(grid generator, congruence) depends on the representation: " << z1 << " " << z2 << " " << z3 << " " << z4; return q.str(); });
@@ -419,7 +432,7 @@ struct Prog {
       o.d.m_swap(d); o.s.m_swap(s); c.log << "e" << i << " = " << show(o.v) << "\n"; }
     op = "initial state"; verify(0); verify(1);
     int steps = 0;
-    while (!t.exhausted() && steps < 120) { ++steps; step(); verify(0); verify(1); }
+    while (!t.exhausted() && steps < 120) { ++steps; try { step(); verify(0); verify(1); } catch (...) { c.log << "  " << op << "   <-- stopped in or after this step\n"; throw; } }
     for (int i = 0; i < 2; ++i) { size_t nz = 0; for (size_t j = 1; j < sl[i].v.size(); ++j) if (sl[i].v[j] != 0) ++nz; if (sl[i].dim() >= 4 && nz >= 3 && sl[i].muts >= 3) c.nt(); }
     c.tag(steps >= 40 ? "steps >= 40" : steps >= 10 ? "steps 10..39" : "steps < 10");
   }
